@@ -5,6 +5,7 @@ import (
 	"fmt"
 	"io"
 	"reflect"
+	"strconv"
 	"strings"
 
 	"github.com/splunk/stef/go/pkg"
@@ -315,8 +316,99 @@ func runRoundtripMode() {
 			root.lastStream, root.lastN = res.stream, len(res.truths)
 		}
 	}
+	olderSchemaCases(rng.FromEnv(117))
 	runKnownFindings(r)
 	longStreamCases("C01", rng.FromEnv(111))
 	dictStringLengthCases("C01")
 	bigPlainStringCases("C01")
+}
+
+// olderSchemaCases: histories written with WriterOptions.Schema = the wire schema of an OLDER
+// producer (trailing fields of structs and trailing alternatives of oneofs cut off, descriptor
+// included). The application uses its whole record, cut-off fields included; the stream must
+// carry exactly what the older schema can hold: the reader (own schema + the descriptor) must
+// return, record by record, the kept fields the writer's record held (recgen.KeepFields restricts
+// both dumps), then io.EOF. Oracle: the harness's own comparison.
+func olderSchemaCases(r *rng.R) {
+	n := scale(60)
+	for i := 0; i < n; i++ {
+		root := roots[i%2]
+		o := genOpts(r)
+		o.desc = true
+		var desc string
+		var force map[string]int
+		if root.name == "Metrics" && i%4 < 2 {
+			// cut inside the optional fields (Sum, Min, Max) of the histogram values
+			force = map[string]int{"HistogramValue": 3, "ExpHistogramValue": 3}
+		}
+		o.schema, desc = olderWireSchemaForce(r, root.name, i%3 == 0, force)
+		if o.schema == nil {
+			continue
+		}
+		o.schemaDesc = desc
+		keep := map[string]int{}
+		for _, c := range strings.Split(desc, ",") {
+			k := strings.LastIndex(c, ":")
+			v, _ := strconv.Atoi(c[k+1:])
+			keep[c[:k]] = v
+		}
+		name := fmt.Sprintf("rt-older-%d", i)
+		note("case %s", name)
+		cfg := &recgen.Cfg{DictResets: o.dictSize != 0 || o.flags&pkg.RestartDictionaries != 0, NoFrozen: r.Chance(1, 3), NoBigLens: true}
+		if i%4 == 1 {
+			cfg.DictHeavy = true
+		}
+		p := genParams{writes: 2 + r.Intn(12), maxMut: 4, flushProb: r.Intn(6)}
+		if force != nil {
+			p.writes = 30 + r.Intn(40)
+		}
+		recgen.KeepFields = keep
+		func() {
+			defer func() { recgen.KeepFields = nil }()
+			h, res := generate(r, root, o, cfg, p)
+			stats["older-schema-cases"]++
+			stats["older-schema-records"] += len(res.truths)
+			if res.werr != "" || len(res.callPanics) > 0 {
+				propFail("C01 older-schema-writer-error case=%s writing in an older schema (kept fields %s): %s %v; history: %s", name, desc, res.werr, res.callPanics, h.describe(40))
+				return
+			}
+			fail := func(f string, a ...any) {
+				propFail("C02 older-schema-stream-differs case=%s opts=%s: %s; history (%d steps): %s", name, o, fmt.Sprintf(f, a...), len(h.steps), h.describe(40))
+			}
+			defer func() {
+				if e := recover(); e != nil {
+					fail("the reader panicked: %v", e)
+				}
+			}()
+			rd, err := root.newReader(bytes.NewReader(res.stream))
+			if err != nil {
+				fail("the reader refuses the stream: %v", err)
+				return
+			}
+			for k, want := range res.truths {
+				if err := rd.Read(pkg.ReadOptions{}); err != nil {
+					fail("record %d of %d: the reader returned %v", k, len(res.truths), err)
+					return
+				}
+				if got := recgen.Dump(rd.Rec(), root.ty); got != want {
+					fail("record %d of %d read back (kept fields only) as %s, the writer's record held %s", k, len(res.truths), clip(got, 300), clip(want, 300))
+					return
+				}
+			}
+			if err := rd.Read(pkg.ReadOptions{}); err != io.EOF {
+				fail("after the %d records written the reader returned %v, want io.EOF", len(res.truths), err)
+				return
+			}
+			if len(res.truths) >= 2 {
+				note("nontrivial %x", fnv(res.truths...))
+			}
+		}()
+	}
+}
+
+func clip(s string, n int) string {
+	if len(s) > n {
+		return s[:n] + "..."
+	}
+	return s
 }
